@@ -1,7 +1,7 @@
 """C01 — iterator tools produce exactly what their standard-library namesakes produce."""
 import s1
 from framework import Issue
-from s1 import features, model_request, nontrivial, observe  # noqa: F401
+from s1 import nontrivial  # noqa: F401
 from tools import yields
 
 RULE = (
@@ -17,7 +17,84 @@ ASSUMPTIONS = ["documented deviations are part of the reference: accumulate of a
                "batched(strict=) is compared with the CPython 3.13 algorithm (3.12 has no strict flag)"]
 
 
+def _tee_cases(tier):
+    """tee children (C01 lists them): sequential consumption patterns compared with itertools.tee; the schedule-level
+    behaviour of tee is C09's machine"""
+    L = 3 if tier == "quick" else 4
+    for n in (2, 3):
+        for ln in range(0, L + 1):
+            for kind in ("list", "iter", "agen", "aobj"):
+                # a pattern is a list of [child, how many items to take] steps followed by who is closed when
+                pats = [[[c, ln + 1] for c in range(n)],                       # drain one after the other
+                        [[c, 1] for _ in range(ln + 1) for c in range(n)],    # lockstep
+                        [[0, 1], [n - 1, 1], ["close", n - 1], [0, ln + 1]],    # close a later child, drain the first
+                        [[c, 1] for c in range(n)] + [["close", 0]] + [[c, ln + 1] for c in range(1, n)],
+                        [[0, ln // 2 + 1], [1, ln + 1], [0, ln + 1]]]
+                for pat in pats:
+                    yield {"tool": "tee", "family": "tee", "n": n, "params": {}, "pattern": pat, "fns": [],
+                           "srcs": [{"kind": kind, "script": [["o", i, i % 2] for i in range(ln)]}], "cons": {"fin": "exhaust"}}
+
+
+def _run_tee(case, sync):
+    import itertools as _it
+    from tools import mkscript
+    from world import asyncstdlib, drive, canon, exc_name, make_source
+    items = [v for _, v in mkscript(case["srcs"][0]["script"])]
+    out = {c: [] for c in range(case["n"])}
+    ends = {}
+    if sync:
+        kids = list(_it.tee(iter(items), case["n"]))
+    else:
+        src, _ = make_source(case["srcs"][0]["kind"], [("item", v) for v in items], 0, [])
+        kids = list(asyncstdlib.tee(src, case["n"]))
+    closed = set()
+    for step in case["pattern"]:
+        if step[0] == "close":
+            closed.add(step[1])
+            if not sync:
+                drive(kids[step[1]].aclose())
+            continue
+        c, k = step
+        if c in closed or c in ends:
+            continue
+        for _ in range(k):
+            if sync:
+                try:
+                    out[c].append(canon(next(kids[c])))
+                except StopIteration:
+                    ends[c] = "exhausted"
+                    break
+            else:
+                res = drive(kids[c].__anext__())
+                if res.exc is None:
+                    out[c].append(canon(res.value))
+                else:
+                    ends[c] = "exhausted" if isinstance(res.exc, StopAsyncIteration) else ["raised", exc_name(res.exc)]
+                    break
+    return {"out": [out[c] for c in range(case["n"])], "ends": [ends.get(c) for c in range(case["n"])]}
+
+
+def observe(case):  # noqa: F811
+    if case.get("family") == "tee":
+        a = _run_tee(case, False)
+        return {"tee_async": a, "tee_sync": _run_tee(case, True), "async": {"out": ["exhausted"], "vis": [["yield", v] for v in a["out"][0]]}}
+    return s1.observe(case)
+
+
+def model_request(case):  # noqa: F811
+    if case.get("family") == "tee":
+        return None
+    return s1.model_request(case)
+
+
+def features(case, obs):  # noqa: F811
+    if case.get("family") == "tee":
+        return ["tool=tee", "kind=" + case["srcs"][0]["kind"]]
+    return s1.features(case, obs)
+
+
 def cases(tier, rng):
+    yield from _tee_cases(tier)
     yield from s1.base_cases(tier, rng, s1.KINDS_ALL, s1.cons_exhaust, tools_subset=s1.ITER_TOOLS, maxlen=4 if tier == "quick" else 5)
     yield from s1.random_cases(tier, rng, s1.KINDS_ALL, 3000 if tier == "quick" else 60000, cons_kinds=("exhaust",), tools_subset=s1.ITER_TOOLS)
 
@@ -28,6 +105,10 @@ def _proj(vis, out):
 
 def judge(case, obs, model):
     issues = []
+    if case.get("family") == "tee":
+        if obs["tee_async"] != obs["tee_sync"]:
+            issues.append(Issue("oracle", {"asyncstdlib": obs["tee_async"], "itertools": obs["tee_sync"]}, "items-differ:tee"))
+        return issues
     a, s = obs["async"], obs["sync"]
     if yields(a["vis"]) != yields(s["vis"]):
         issues.append(Issue("oracle", {"asyncstdlib": yields(a["vis"]), "stdlib": yields(s["vis"])}, "items-differ:" + case["tool"]))
